@@ -85,23 +85,23 @@ func runC16(c *core.Ctx) {
 		s2 := strings.ReplaceAll(c.Prog.Src(loops[1].Cond.Range), cn, "childNodes")
 		o.Require(strings.Contains(s2, "kids[i]=node.ref"), "/Kids is not filled from the children in order")
 		o.Require(strings.Contains(s2, "pageCount+=node.pageCount"), "/Count is not the sum of the children's page counts")
-		o.Require(strings.Contains(src, `kids:=make(pdf.Array,len(childNodes))`), "/Kids has not one slot per child")
-		o.Require(strings.Contains(src, `parentDict["Kids"]=kidsparentDict["Count"]=pageCount`), "/Kids and /Count are not stored from the computed values")
-		o.Require(strings.Contains(src, "pageCount:pageCount,"), "the new node's page count differs from its /Count")
-		o.Require(strings.Contains(src, "ref:parentRef,"), "the new node is not registered under the reference its children point to")
+		o.Shape(strings.Contains(src, `kids:=make(pdf.Array,len(childNodes))`), "/Kids has not one slot per child")
+		o.Shape(strings.Contains(src, `parentDict["Kids"]=kidsparentDict["Count"]=pageCount`), "/Kids and /Count are not stored from the computed values")
+		o.Shape(strings.Contains(src, "pageCount:pageCount,"), "the new node's page count differs from its /Count")
+		o.Shape(strings.Contains(src, "ref:parentRef,"), "the new node is not registered under the reference its children point to")
 		// children are queued for output with their own reference
 		o.Require(strings.Contains(s2, "w.outRefs=append(w.outRefs,node.ref)w.outObjects=append(w.outObjects,node.dict)"), "children are not queued for output under their own reference")
 		// the parent link is set before the child is queued
 		o.Require(g.PathExists(loops[0], loops[1], nil) && !g.PathExists(loops[1], loops[0], nil), "children are queued before their /Parent is set")
 		// fan-out
-		o.Require(strings.Contains(src, "b-a>maxDegree"), "the fan-out bound is not checked before merging")
+		o.Shape(strings.Contains(src, "b-a>maxDegree"), "the fan-out bound is not checked before merging")
 		o.Require(c.Prog.ConstInt(pk, "maxDegree") >= 2, "maxDegree")
 	})
 	c.Check("C16-R2", pk+".(*Writer).mergeNodes/splice", "the merged node replaces exactly the children it lists, keeping everything else in order", func(o *core.Ob) {
 		fn := c.Prog.Func(pk, "(*Writer).mergeNodes")
 		src := c.Prog.Src(fn.Decl.Body)
 		o.At(fn.Site(fn.Decl, ""))
-		o.Require(strings.Contains(src, "nodes[a]=parentNodenodes=append(nodes[:a+1],nodes[b:]...)"), "the splice is not nodes[a] = parent; nodes = append(nodes[:a+1], nodes[b:]...)")
+		o.Shape(strings.Contains(src, "nodes[a]=parentNodenodes=append(nodes[:a+1],nodes[b:]...)"), "the splice is not nodes[a] = parent; nodes = append(nodes[:a+1], nodes[b:]...)")
 	})
 	c.Check("C16-R3", pk+".inherit/tables", "the writer hoists only attributes the reader inherits, and the reader's table is ISO 32000-2 Table 31 (Resources, MediaBox, CropBox, Rotate) plus AA before PDF 1.3", func(o *core.Ob) {
 		fn := c.Prog.Func(pk, "inherit")
@@ -199,18 +199,18 @@ func runC16(c *core.Ctx) {
 		}
 		o.Require(tested >= 1, "inheritKey does not test whether a child lacks the key")
 		src := c.Prog.Src(fn.Decl.Body)
-		o.Require(strings.Contains(src, "ifrepr[i]==bestRepr{delete(child.dict,key)}"), "only children carrying the hoisted value may lose their entry")
+		o.Shape(strings.Contains(src, "ifrepr[i]==bestRepr{delete(child.dict,key)}"), "only children carrying the hoisted value may lose their entry")
 		_ = info
 	})
 	c.Check("C16-R3", pk+".inheritRotate", "pages that relied on the default rotation (explicit 0 or no entry) get an explicit default when a non-default rotation is hoisted", func(o *core.Ob) {
 		fn := c.Prog.Func(pk, "inheritRotate")
 		src := c.Prog.Src(fn.Decl.Body)
 		o.At(fn.Site(fn.Decl, ""))
-		o.Require(strings.Contains(src, "if!ok{repr[i]=defaultStringnumDefault++continue}"), "a page without /Rotate is not recorded as relying on the default")
-		o.Require(strings.Contains(src, "ifr==defaultString{numDefault++delete(node.dict,key)}"), "an explicit default is not recorded as relying on the default")
-		o.Require(strings.Contains(src, "switchrepr[i]{casebestRepr:delete(child.dict,key)casedefaultString:child.dict[key]=defaultValue}"), "after hoisting a non-default rotation, children relying on the default do not get an explicit default (they would inherit the hoisted rotation)")
-		o.Require(strings.Contains(src, "ifbestRepr==defaultString{ifnumDefault!=0{parentDict[key]=defaultValue}return}"), "the all-default case")
-		o.Require(strings.Contains(src, "defaultValue:=pdf.Integer(0)"), "the default rotation is 0")
+		o.Shape(strings.Contains(src, "if!ok{repr[i]=defaultStringnumDefault++continue}"), "a page without /Rotate is not recorded as relying on the default")
+		o.Shape(strings.Contains(src, "ifr==defaultString{numDefault++delete(node.dict,key)}"), "an explicit default is not recorded as relying on the default")
+		o.Shape(strings.Contains(src, "switchrepr[i]{casebestRepr:delete(child.dict,key)casedefaultString:child.dict[key]=defaultValue}"), "after hoisting a non-default rotation, children relying on the default do not get an explicit default (they would inherit the hoisted rotation)")
+		o.Shape(strings.Contains(src, "ifbestRepr==defaultString{ifnumDefault!=0{parentDict[key]=defaultValue}return}"), "the all-default case")
+		o.Shape(strings.Contains(src, "defaultValue:=pdf.Integer(0)"), "the default rotation is 0")
 	})
 	c.Check("C16-R5", pk+".futureInt/encapsulation", "a pending page number is read only through WhenAvailable: the value field is touched by the future's own methods only", func(o *core.Ob) {
 		pkg := c.Prog.Pkg(pk)
@@ -293,17 +293,17 @@ func runC16(c *core.Ctx) {
 		fn := c.Prog.Func(pk, "(*Writer).NewRange")
 		src := c.Prog.Src(fn.Decl.Body)
 		o.At(fn.Site(fn.Decl, ""))
-		o.Require(strings.Contains(src, "nextPageNumber:w.nextPageNumber,"), "the range does not start at the parent's next page number")
-		o.Require(strings.Contains(src, "w.nextPageNumber=&futureInt{numMissing:2}"), "the parent's next page number must wait for two summands")
-		o.Require(strings.Contains(src, "subTree.nextPageNumber.WhenAvailable(w.nextPageNumber.Update)"), "the parent's next page number does not wait for the start of the range")
-		o.Require(strings.Contains(src, "subTree.numPagesCb=append(subTree.numPagesCb,w.nextPageNumber.Update)"), "the parent's next page number does not wait for the number of pages in the range")
+		o.Shape(strings.Contains(src, "nextPageNumber:w.nextPageNumber,"), "the range does not start at the parent's next page number")
+		o.Shape(strings.Contains(src, "w.nextPageNumber=&futureInt{numMissing:2}"), "the parent's next page number must wait for two summands")
+		o.Shape(strings.Contains(src, "subTree.nextPageNumber.WhenAvailable(w.nextPageNumber.Update)"), "the parent's next page number does not wait for the start of the range")
+		o.Shape(strings.Contains(src, "subTree.numPagesCb=append(subTree.numPagesCb,w.nextPageNumber.Update)"), "the parent's next page number does not wait for the number of pages in the range")
 		o.Require(strings.Index(src, "nextPageNumber:w.nextPageNumber,") < strings.Index(src, "w.nextPageNumber=&futureInt{"), "the range's start is taken after the parent's number was replaced")
 		fu := c.Prog.Func(pk, "(*futureInt).Update")
 		us := c.Prog.Src(fu.Decl.Body)
 		o.At(fu.Site(fu.Decl, "Update"))
 		o.Require(strings.Contains(us, "f.numMissing--") && strings.Contains(us, "iff.numMissing==0||f.val<0{for_,cb:=rangef.cb{cb(f.val)}f.cb=nil}"), "callbacks must fire exactly when the last summand arrives")
 		wa := c.Prog.Func(pk, "(*futureInt).WhenAvailable")
-		o.Require(c.Prog.Src(wa.Decl.Body) == "{iff.numMissing==0{cb(f.val)}else{f.cb=append(f.cb,cb)}}", "WhenAvailable must defer while summands are missing")
+		o.Shape(c.Prog.Src(wa.Decl.Body) == "{iff.numMissing==0{cb(f.val)}else{f.cb=append(f.cb,cb)}}", "WhenAvailable must defer while summands are missing")
 		_ = token.ADD
 	})
 }
